@@ -7,6 +7,8 @@ import GormModel.Model.Tx
 import GormModel.Lemmas.Tx
 import GormModel.Lemmas.TxRefine
 import GormModel.Lemmas.TxValues
+import GormModel.Lemmas.TxLeak
+import GormModel.Gen.BeginFacts
 namespace Gorm
 open Gorm.Tx
 
@@ -22,7 +24,7 @@ theorem C04_sticky_counterexample :
     let r := run C04_cfg0 (fun k => k == 2) C04_stickyWitness { committed := [] }
     r.2 = .err [.inj 2] ∧ r.1.committed = [1] ∧ r.1.stale = true ∧ r.1.rbFault = false ∧
     spec C04_cfg0 (fun k => k == 2) C04_stickyWitness [] = ([1], .ok) := by
-  decide
+  decide +kernel
 
 /-- boundary of the claim: a fault injected into the deferred ROLLBACK TO (driver call 4) is discarded by gorm
     (finisher_api.go:635), so the failing nested block's write 2 survives and is committed. Such faults are outside the
@@ -31,21 +33,101 @@ theorem C04_rollbackto_fault_example :
     let p : List Prog := [.blk [.write (.ins 1) true, .blk [.write (.ins 2) true] .retErr 1 false] .retNil 2 true]
     let r := run C04_cfg0 (fun k => k == 4) p { committed := [] }
     r.1.rbFault = true ∧ r.1.committed = [1, 2] := by
-  decide
+  decide +kernel
 
-/-- NO LEAK, for every program tree (any depth, any outcome assignment: nil / error / panic, manual sequences included),
-    every fault oracle and every configuration: after the program no driver transaction is open and no connection is
-    checked out (`DB.open` counts both) — even when BEGIN, COMMIT, SAVEPOINT, ROLLBACK TO or any statement fails, and also
-    in runs that exhibit finding F18. -/
-theorem C04_no_leak (c : Cfg) (o : Oracle) (ps : List Prog) (db : DB)
-    (hwf : wfBody false ps = true) (hd : db.tx = none) :
+/-! ### no leak ("in every case the connection goes back to the pool")
+
+  `DB.tx` is the one driver transaction a live handle can still reach; `DB.leaked` counts driver transactions that were begun
+  and that NO handle can end any more; `DB.open` = both = connections checked out of the pool. -/
+
+/-- the common core: after ANY program — any depth, any outcome assignment (nil / error / panic), manual sequences, handles
+    carrying errors, every fault oracle (BEGIN, COMMIT, SAVEPOINT, ROLLBACK TO, any statement), every configuration — no
+    REACHABLE driver transaction is open; and no orphan was made provided Begin has the early return on a handle that carries
+    an error (`c.beginGuard`) or the program never invokes Transaction / Begin outside a transaction on such a handle. -/
+theorem C04_no_leak_gen (c : Cfg) (o : Oracle) (ps : List Prog) (db : DB)
+    (hwf : wfBody false ps = true) (hd : db.tx = none) (hl : db.leaked = 0)
+    (hh : c.beginGuard = true ∨ noBeginOnFailed ps = true) :
     (run c o ps db).1.tx = none ∧ (run c o ps db).1.open = 0 := by
   have hroot : c.root.pool.isCommitter = false := by
     unfold Cfg.root; cases c.prep <;> rfl
   have h := runBody_frame c o ps c.root db (by rw [hroot]; exact hwf)
-  have ht := (h.2.2 hroot rfl hd).1
+  have ht := (h.2.2 hroot hd).1
+  have hk := (runBody_leak c o ps c.root db (by rw [hroot]; exact hwf)).2 hroot hd false
+    (fun he => absurd rfl he) hh
   unfold run
-  exact ⟨ht, by simp [DB.open, ht]⟩
+  exact ⟨ht, by simp [DB.open, ht, hk, hl]⟩
+
+/-- minimal witness of finding F27: `h := db.Session(&Session{}); h.AddError(e1); h.Transaction(func(tx) { tx.Create(1); return nil })` -/
+def C04_leakWitness : List Prog := [.fh (.addErr 1) [.blk [.write (.ins 1) true] .retNil 2 true] true]
+
+/-- … and the same through the handle a failed finisher returned and the manual API:
+    `tx := db.First(&item, -1).Begin(); if tx.Error != nil { return tx.Error }` -/
+def C04_leakWitnessMan : List Prog := [.fh .firstMiss [.man [.write (.ins 1) true] .commit true] true]
+
+/-- FINDING F27 (counterexample, kernel-checked; the model of the UNREPAIRED Begin, `beginGuard = false`, no fault injected):
+    Transaction returns the handle's error unchanged, the function is not run, nothing is durable — but the only driver call
+    of the run is a successful BEGIN whose transaction nothing ever ends: one connection stays checked out for ever. -/
+theorem C04_no_leak_counterexample :
+    let r := run C04_cfg0 (fun _ => false) C04_leakWitness { committed := [] }
+    let r' := run C04_cfg0 (fun _ => false) C04_leakWitnessMan { committed := [] }
+    C04_cfg0.beginGuard = false ∧ wfBody false C04_leakWitness = true ∧ noBeginOnFailed C04_leakWitness = false ∧
+    r.2 = .err [.user 1] ∧ r.1.committed = [] ∧ r.1.trace = [(K.B, false)] ∧ r.1.tx = none ∧ r.1.leaked = 1 ∧ r.1.open = 1 ∧
+    r'.2 = .err [.notFound] ∧ r'.1.committed = [] ∧ r'.1.trace = [(K.B, false), (K.Q, false)] ∧ r'.1.open = 1 := by
+  decide +kernel
+
+/-- NO LEAK, as far as it holds for the unrepaired Begin (every configuration INCLUDING `beginGuard = false`): for every
+    program tree that never invokes Transaction / Begin outside a transaction on a handle that carries an error
+    (`noBeginOnFailed` — exactly the negation of finding F27's pattern; such handles may still be used for everything else,
+    and for Transaction / Begin INSIDE transactions), every fault oracle, every configuration: after the program no driver
+    transaction is open and no connection is checked out — also in runs that exhibit finding F18. -/
+theorem C04_no_leak_partial (c : Cfg) (o : Oracle) (ps : List Prog) (db : DB)
+    (hwf : wfBody false ps = true) (hd : db.tx = none) (hl : db.leaked = 0) (hsafe : noBeginOnFailed ps = true) :
+    (run c o ps db).1.tx = none ∧ (run c o ps db).1.open = 0 :=
+  C04_no_leak_gen c o ps db hwf hd hl (Or.inr hsafe)
+
+/-- NO LEAK AT FULL STRENGTH for the repaired Begin (`beginGuard = true`: `if tx.Error != nil { return tx }` before the pool is
+    touched): EVERY program tree — Transaction / Begin on handles that carry an error included —, every fault oracle, every
+    configuration of gorm. -/
+theorem C04_no_leak_repaired (c : Cfg) (hg : c.beginGuard = true) (o : Oracle) (ps : List Prog) (db : DB)
+    (hwf : wfBody false ps = true) (hd : db.tx = none) (hl : db.leaked = 0) :
+    (run c o ps db).1.tx = none ∧ (run c o ps db).1.open = 0 :=
+  C04_no_leak_gen c o ps db hwf hd hl (Or.inl hg)
+
+/-- the obligation on the tree that is being verified (`Gen.beginChecksError` is regenerated from finisher_api.go on every
+    run and is what the driver puts into `Cfg.beginGuard`): either Begin has the early return and no-leak holds at full
+    strength, or it has not and the witness of finding F27 leaks -/
+theorem C04_no_leak_current_tree :
+    (Gen.beginChecksError = true ∧
+      ∀ (c : Cfg) (o : Oracle) (ps : List Prog) (db : DB), c.beginGuard = Gen.beginChecksError →
+        wfBody false ps = true → db.tx = none → db.leaked = 0 →
+        (run c o ps db).1.tx = none ∧ (run c o ps db).1.open = 0) ∨
+    (Gen.beginChecksError = false ∧
+      (run { C04_cfg0 with beginGuard := Gen.beginChecksError } (fun _ => false) C04_leakWitness { committed := [] }).1.open = 1) := by
+  by_cases h : Gen.beginChecksError = true
+  · exact Or.inl ⟨h, fun c o ps db hc hwf hd hl => C04_no_leak_repaired c (hc.trans h) o ps db hwf hd hl⟩
+  · have h' : Gen.beginChecksError = false := by simpa using h
+    refine Or.inr ⟨h', ?_⟩
+    rw [h']
+    decide
+
+/-- non-vacuity of `C04_no_leak_repaired` and of `C04_no_leak_partial`: with the early return the two witnesses issue NO driver
+    call, return the handle's error and leave nothing open; without it, a program that uses failed handles for everything
+    except Transaction / Begin outside a transaction (writes refused at top level; Begin / nested block on a failed handle
+    INSIDE a transaction) satisfies `noBeginOnFailed` and leaks nothing -/
+example :
+    let cg : Cfg := { C04_cfg0 with beginGuard := true }
+    let r := run cg (fun _ => false) C04_leakWitness { committed := [] }
+    let r' := run cg (fun _ => false) C04_leakWitnessMan { committed := [] }
+    r.2 = .err [.user 1] ∧ r.1.trace = [] ∧ r.1.open = 0 ∧ r'.2 = .err [.notFound] ∧ r'.1.trace = [(K.Q, false)] ∧ r'.1.open = 0 := by
+  decide +kernel
+example :
+    let ps : List Prog :=
+      [.fh (.addErr 1) [.write (.ins 1) false, .read false] true,
+       .blk [.write (.ins 2) true,
+             .fh .firstMiss [.man [.write (.ins 3) true] .commit false, .blk [.write (.ins 4) true] .retNil 5 false] false] .retNil 6 true]
+    let r := run C04_cfg0 (fun _ => false) ps { committed := [] }
+    wfBody false ps = true ∧ noBeginOnFailed ps = true ∧ r.1.open = 0 ∧ r.1.committed = [2] ∧ r.2 = .ok := by
+  decide +kernel
 
 /-- inside a transaction nothing reaches the committed store — for EVERY function body run on a transaction handle (nested
     blocks of any depth, failing or not, save points, faults, the transaction ended underneath the function) — and, unless
@@ -59,9 +141,9 @@ theorem C04_body_isolated (c : Cfg) (o : Oracle) (ps : List Prog) (h : Handle) (
 theorem runChild_blk_root (c : Cfg) (o : Oracle) (h : Handle) (body : List Prog) (out : Out) (tag : Nat) (must : Bool) (db : DB)
     (hp : h.pool.isCommitter = false) :
     runChild c o h (.blk body out tag must) db =
-      if (gormBegin o h (markStale h db)).2.err ≠ [] then
-        ((gormBegin o h (markStale h db)).1, h, .err (gormBegin o h (markStale h db)).2.err)
-      else finishRoot o h out tag (runBody c o (gormBegin o h (markStale h db)).2 body (gormBegin o h (markStale h db)).1) := by
+      if (gormBegin c.beginGuard o h (markStale h db)).2.err ≠ [] then
+        ((gormBegin c.beginGuard o h (markStale h db)).1, h, .err (gormBegin c.beginGuard o h (markStale h db)).2.err)
+      else finishRoot o h out tag (runBody c o (gormBegin c.beginGuard o h (markStale h db)).2 body (gormBegin c.beginGuard o h (markStale h db)).1) := by
   unfold runChild
   simp only [hp, Bool.false_eq_true, if_false]
 
@@ -79,26 +161,26 @@ theorem C04_block_all_or_nothing (c : Cfg) (o : Oracle) (body : List Prog) (out 
     ((runChild c o c.root (.blk body out tag must) db).2.2 ≠ .ok →
         (runChild c o c.root (.blk body out tag must) db).1.committed = db.committed) ∧
     ((runChild c o c.root (.blk body out tag must) db).2.2 = .ok →
-        out = .retNil ∧ (runBody c o (gormBegin o c.root db).2 body (gormBegin o c.root db).1).2.2 = .ok ∧
-        ∃ t, (runBody c o (gormBegin o c.root db).2 body (gormBegin o c.root db).1).1.tx = some t ∧
+        out = .retNil ∧ (runBody c o (gormBegin c.beginGuard o c.root db).2 body (gormBegin c.beginGuard o c.root db).1).2.2 = .ok ∧
+        ∃ t, (runBody c o (gormBegin c.beginGuard o c.root db).2 body (gormBegin c.beginGuard o c.root db).1).1.tx = some t ∧
              (runChild c o c.root (.blk body out tag must) db).1.committed = t.cur) := by
   have hroot : c.root.pool.isCommitter = false := by
     unfold Cfg.root; cases c.prep <;> rfl
   have herr : c.root.err = [] := rfl
   have hms : markStale c.root db = db := by simp [markStale, herr]
   have hfr := runChild_frame c o (.blk body out tag must) c.root db (by simpa [wfChild] using hwf)
-  have hb := gormBegin_root o c.root db hroot herr
-  refine ⟨(hfr.2.2 hroot herr hd).1, ?_⟩
+  have hb := gormBegin_root c.beginGuard o c.root db hroot herr
+  refine ⟨(hfr.2.2 hroot hd).1, ?_⟩
   rw [runChild_blk_root c o c.root body out tag must db hroot, hms] at hs ⊢
-  by_cases hbe : (gormBegin o c.root db).2.err ≠ []
+  by_cases hbe : (gormBegin c.beginGuard o c.root db).2.err ≠ []
   · rw [if_pos hbe]
     exact ⟨fun _ => hb.2.1, fun h => by simp at h⟩
   · rw [if_neg hbe] at hs ⊢
-    have hbody := runBody_frame c o body (gormBegin o c.root db).2 (gormBegin o c.root db).1 (by rw [hb.1]; exact hwf)
-    have hpool : (runBody c o (gormBegin o c.root db).2 body (gormBegin o c.root db).1).2.1.pool.isCommitter = true := by
+    have hbody := runBody_frame c o body (gormBegin c.beginGuard o c.root db).2 (gormBegin c.beginGuard o c.root db).1 (by rw [hb.1]; exact hwf)
+    have hpool : (runBody c o (gormBegin c.beginGuard o c.root db).2 body (gormBegin c.beginGuard o c.root db).1).2.1.pool.isCommitter = true := by
       rw [hbody.1]; exact hb.1
     have hdur := finishRoot_durability o c.root out tag _ _ _ hpool hs
-    have hcm : (runBody c o (gormBegin o c.root db).2 body (gormBegin o c.root db).1).1.committed = db.committed :=
+    have hcm : (runBody c o (gormBegin c.beginGuard o c.root db).2 body (gormBegin c.beginGuard o c.root db).1).1.committed = db.committed :=
       ((hbody.2.1 hb.1).1).trans hb.2.1
     exact ⟨fun hne => (hdur.1 hne).trans hcm, fun hok => by
       obtain ⟨h1, h2, t, ht, hc⟩ := hdur.2 hok
@@ -186,22 +268,24 @@ theorem C04_nested_disabled (c : Cfg) (o : Oracle) (h : Handle) (hp : h.pool.isC
   · unfold finishDis; exact fnEnd_calls _ _ _ _ _
 
 /-- REFINEMENT. Every well-formed program without `RollbackTo` nodes (`noRbs`; `SavePoint` nodes, nested blocks of any depth
-    with any outcome, manual Begin/Commit/Rollback sequences, derived handles are all allowed), every configuration and every
+    with any outcome, manual Begin/Commit/Rollback sequences, derived handles are all allowed) and without handles into which
+    the caller put an error (`noFailBody`: using one is a stale use by construction), every configuration and every
     fault oracle, started with no transaction open and call counter 0: if the run exhibits no stale use of a poisoned handle
     (finding F18) and no fault was injected into a ROLLBACK TO, the committed store and the result are exactly those of the
     functional reference `spec`. -/
 theorem C04_refines (c : Cfg) (o : Oracle) (ps : List Prog) (db : DB)
-    (hwf : wfBody false ps = true) (hn : noRbs ps = true) (hne : noEndBody ps = true) (hd : db.tx = none) (hc : db.calls = 0)
+    (hwf : wfBody false ps = true) (hn : noRbs ps = true) (hne : noEndBody ps = true) (hnf : noFailBody ps = true)
+    (hd : db.tx = none) (hc : db.calls = 0)
     (hs : (run c o ps db).1.stale = false) (hf : (run c o ps db).1.rbFault = false) :
     (run c o ps db).1.committed = (spec c o ps db.committed).1 ∧ (run c o ps db).2 = (spec c o ps db.committed).2 :=
-  run_refines c o ps db hwf hn hne hd hc hs hf
+  run_refines c o ps db hwf hn hne hnf hd hc hs hf
 
 /-- the same on a fresh database -/
 theorem C04_refines_fresh (c : Cfg) (o : Oracle) (ps : List Prog) (s0 : Store)
-    (hwf : wfBody false ps = true) (hn : noRbs ps = true) (hne : noEndBody ps = true)
+    (hwf : wfBody false ps = true) (hn : noRbs ps = true) (hne : noEndBody ps = true) (hnf : noFailBody ps = true)
     (hs : (run c o ps { committed := s0 }).1.stale = false) (hf : (run c o ps { committed := s0 }).1.rbFault = false) :
     (run c o ps { committed := s0 }).1.committed = (spec c o ps s0).1 ∧ (run c o ps { committed := s0 }).2 = (spec c o ps s0).2 :=
-  run_refines c o ps { committed := s0 } hwf hn hne rfl rfl hs hf
+  run_refines c o ps { committed := s0 } hwf hn hne hnf rfl rfl hs hf
 
 /-- non-vacuity of `C04_nested_local`: a two-level nested block with a manual save point and a manual RollbackTo inside,
     returning an error, on a transaction with a non-empty entry stack — all hypotheses hold (and so does the conclusion);
@@ -227,7 +311,7 @@ example :
        .man [.write (.ins 7) true] .commit true,
        .blk [.write (.ins 8) true] .panic 6 false]
     let r := run C04_cfg0 (fun k => k == 3) ps { committed := [] }
-    wfBody false ps = true ∧ noRbs ps = true ∧ noEndBody ps = true ∧ r.1.stale = false ∧ r.1.rbFault = false ∧
+    wfBody false ps = true ∧ noRbs ps = true ∧ noEndBody ps = true ∧ noFailBody ps = true ∧ r.1.stale = false ∧ r.1.rbFault = false ∧
     r.1.committed = [1, 3, 7] ∧ r.2 = .ok := by decide +kernel
 
 
@@ -239,7 +323,7 @@ example :
 example :
     let ps : List Prog := [.blk [.write (.ins 1) true, .blk [.write (.ins 2) true] .retErr 1 false] .retNil 2 true]
     let r := run C04_cfg0 (fun _ => false) ps { committed := [] }
-    wfBody false ps = true ∧ noRbs ps = true ∧ noEndBody ps = true ∧ r.1.stale = false ∧ r.1.rbFault = false ∧ r.1.committed = [1] := by decide
+    wfBody false ps = true ∧ noRbs ps = true ∧ noEndBody ps = true ∧ noFailBody ps = true ∧ r.1.stale = false ∧ r.1.rbFault = false ∧ r.1.committed = [1] := by decide +kernel
 
 
 /-! ### round 2: values pass through unchanged; transactions ended underneath; Statement.ConnPool after a write -/
